@@ -105,6 +105,9 @@ type Control struct {
 	// boundary delays: called outside any transaction
 	beforeBegin func(actor string) time.Duration
 	afterCommit func(actor string) time.Duration
+	// afterAutoQuery: delay after a query that ran outside any transaction has
+	// been read to the end (its result is a snapshot the caller goes on to use)
+	afterAutoQuery func(actor string) time.Duration
 	// boundary observers
 	onBoundary func(actor string, kind Kind)
 	// number of goroutines currently inside a statement-tick sleep
@@ -131,6 +134,7 @@ func (c *Control) Reset() {
 	c.tick = 0
 	c.beforeBegin = nil
 	c.afterCommit = nil
+	c.afterAutoQuery = nil
 	c.onBoundary = nil
 }
 
@@ -146,6 +150,14 @@ func (c *Control) Tick() time.Duration { c.mu.Lock(); defer c.mu.Unlock(); retur
 func (c *Control) SetBoundaryDelays(beforeBegin, afterCommit func(actor string) time.Duration) {
 	c.mu.Lock()
 	c.beforeBegin, c.afterCommit = beforeBegin, afterCommit
+	c.mu.Unlock()
+}
+
+// SetAutoQueryDelay sets the delay slept after a query outside any transaction
+// has been fully read and closed (nil: none).
+func (c *Control) SetAutoQueryDelay(f func(actor string) time.Duration) {
+	c.mu.Lock()
+	c.afterAutoQuery = f
 	c.mu.Unlock()
 }
 
@@ -285,6 +297,20 @@ func (d *Driver) Open(dsn string) (driver.Conn, error) {
 
 type conn struct {
 	inner *sqlite3.SQLiteConn
+	inTx  atomic.Bool
+}
+
+// rowsw delays the caller after an autocommit query's rows were closed.
+type rowsw struct {
+	driver.Rows
+	after func()
+	once  sync.Once
+}
+
+func (r *rowsw) Close() error {
+	err := r.Rows.Close()
+	r.once.Do(r.after)
+	return err
 }
 
 var (
@@ -328,7 +354,8 @@ func (c *conn) BeginTx(ctx context.Context, opts driver.TxOptions) (driver.Tx, e
 	if err != nil {
 		return nil, err
 	}
-	return &txw{inner: tx, actor: actor, ctx: ctx}, nil
+	c.inTx.Store(true)
+	return &txw{inner: tx, actor: actor, ctx: ctx, c: c}, nil
 }
 
 func (c *conn) ExecContext(ctx context.Context, query string, args []driver.NamedValue) (driver.Result, error) {
@@ -339,27 +366,45 @@ func (c *conn) ExecContext(ctx context.Context, query string, args []driver.Name
 }
 
 func (c *conn) QueryContext(ctx context.Context, query string, args []driver.NamedValue) (driver.Rows, error) {
-	if err := C.step(ctx, ActorOf(ctx), KQuery, query); err != nil {
+	actor := ActorOf(ctx)
+	if err := C.step(ctx, actor, KQuery, query); err != nil {
 		return nil, err
 	}
-	return c.inner.QueryContext(ctx, query, args)
+	rows, err := c.inner.QueryContext(ctx, query, args)
+	if err != nil || c.inTx.Load() {
+		return rows, err
+	}
+	C.mu.Lock()
+	aq := C.afterAutoQuery
+	C.mu.Unlock()
+	if aq == nil {
+		return rows, err
+	}
+	return &rowsw{Rows: rows, after: func() {
+		if d := aq(actor); d > 0 {
+			time.Sleep(d)
+		}
+	}}, nil
 }
 
 type txw struct {
 	inner driver.Tx
 	actor string
 	ctx   context.Context
+	c     *conn
 }
 
 func (t *txw) Commit() error {
 	if err := C.step(t.ctx, t.actor, KCommit, ""); err != nil {
 		// a failing commit leaves nothing behind
+		t.c.inTx.Store(false)
 		if rbErr := t.inner.Rollback(); rbErr != nil {
 			return fmt.Errorf("%w (and rollback failed: %v)", err, rbErr)
 		}
 		return err
 	}
 	err := t.inner.Commit()
+	t.c.inTx.Store(false)
 	C.mu.Lock()
 	ac, ob := C.afterCommit, C.onBoundary
 	C.mu.Unlock()
@@ -378,6 +423,7 @@ func (t *txw) Commit() error {
 
 func (t *txw) Rollback() error {
 	err := t.inner.Rollback()
+	t.c.inTx.Store(false)
 	C.note(t.actor, KRollback, err)
 	return err
 }
